@@ -34,38 +34,45 @@ type shape struct {
 	// tunnelOnly: the shape has no plain-proxying counterpart (the inner Host differs from the CONNECT
 	// authority), so only the two tunnel transports are compared
 	tunnelOnly bool
+	// advance: the clock is moved on by this much before the exchange (entries stored earlier in the
+	// sequence go stale)
+	advance time.Duration
 }
 
 var tunnelShapes = []shape{
-	{"A-cacheable", "GET", "/a", nil, "", "", false},
-	{"B-chunked-nostore", "GET", "/b", nil, "", "", false},
-	{"C-404", "GET", "/c", nil, "", "", false},
-	{"D-204", "GET", "/d", nil, "", "", false},
-	{"E-head", "HEAD", "/a", nil, "", "", false},
-	{"F-range", "GET", "/a", vnet.H{{"Range", "bytes=1-4"}}, "", "", false},
-	{"G-post", "POST", "/g", nil, "payload", "", false},
-	{"H-500", "GET", "/h", nil, "", "", false},
-	{"I-headers", "GET", "/i", nil, "", "", false},
+	{"A-cacheable", "GET", "/a", nil, "", "", false, 0},
+	{"B-chunked-nostore", "GET", "/b", nil, "", "", false, 0},
+	{"C-404", "GET", "/c", nil, "", "", false, 0},
+	{"D-204", "GET", "/d", nil, "", "", false, 0},
+	{"E-head", "HEAD", "/a", nil, "", "", false, 0},
+	{"F-range", "GET", "/a", vnet.H{{"Range", "bytes=1-4"}}, "", "", false, 0},
+	{"G-post", "POST", "/g", nil, "payload", "", false, 0},
+	{"H-500", "GET", "/h", nil, "", "", false, 0},
+	{"I-headers", "GET", "/i", nil, "", "", false, 0},
 	// exchanges that fail inside the proxy while carrying a request body: whatever becomes of the
 	// exchange, its body bytes must not be read as the next request
-	{"J-post-unusable-host", "POST", "/g", nil, "GET /a HTTP/1.1\r\nHost: " + originHost + "\r\n\r\n", "no such host", true},
-	{"K-post-origin-unreachable", "POST", "/k", nil, "0123456789abcdef", "", false},
+	{"J-post-unusable-host", "POST", "/g", nil, "GET /a HTTP/1.1\r\nHost: " + originHost + "\r\n\r\n", "no such host", true, 0},
+	{"K-post-origin-unreachable", "POST", "/k", nil, "0123456789abcdef", "", false, 0},
 	// HEAD for a resource the origin sends without Content-Length: a head only, no body framing bytes
-	{"L-head-chunked", "HEAD", "/b", nil, "", "", false},
+	{"L-head-chunked", "HEAD", "/b", nil, "", "", false, 0},
 	// the origin announces 36 bytes and breaks off after 10: the client must learn that the body is
 	// incomplete (the connection ends), and what follows on a new connection is unaffected
-	{"M-origin-aborts-sized-body", "GET", "/m", nil, "", "", false},
+	{"M-origin-aborts-sized-body", "GET", "/m", nil, "", "", false, 0},
 	// the origin names no content type: none is made up on either transport
-	{"N-no-content-type", "GET", "/n", nil, "", "", false},
+	{"N-no-content-type", "GET", "/n", nil, "", "", false, 0},
 	// a GET that carries a body: when it is answered from the store nobody reads that body, and it must
 	// still not be taken for the next request on the tunnel
-	{"O-get-with-body", "GET", "/a", nil, "GET /i HTTP/1.1\r\nHost: " + originHost + "\r\n\r\n", "", false},
+	{"O-get-with-body", "GET", "/a", nil, "GET /i HTTP/1.1\r\nHost: " + originHost + "\r\n\r\n", "", false, 0},
 	// a HEAD that the proxy answers with an error page of its own: a head only
-	{"P-head-origin-unreachable", "HEAD", "/k", nil, "", "", false},
+	{"P-head-origin-unreachable", "HEAD", "/k", nil, "", "", false, 0},
+	// eleven minutes later: what A stored has gone stale and is revalidated; the origin's 304 carries
+	// payload fields of its own (Content-Length: 0, a Content-Type), which describe the 304, not the stored body
+	{"Q-a-again-after-expiry", "GET", "/a", nil, "", "", false, 11 * time.Minute},
 }
 
 func scriptTunnelOrigin(o *vnet.Origin, prefix string) {
-	o.Put(prefix+"/a", &vnet.Res{Name: "ta", Size: 36, ETag: vnet.ETagFor("ta", 1), Headers: vnet.H{{"Cache-Control", "max-age=600"}, {"X-A", "token-a"}, {"Content-Type", "text/x-a"}}})
+	o.Put(prefix+"/a", &vnet.Res{Name: "ta", Size: 36, ETag: vnet.ETagFor("ta", 1), Headers: vnet.H{{"Cache-Control", "max-age=600"}, {"X-A", "token-a"}, {"Content-Type", "text/x-a"}},
+		Headers304: vnet.H{{"Content-Length", "0"}, {"Content-Type", "text/x-304"}}})
 	o.Put(prefix+"/b", &vnet.Res{Name: "tb", Size: 53, Chunked: true, Headers: vnet.H{{"Cache-Control", "no-store"}, {"Content-Type", "text/x-b"}}})
 	o.Put(prefix+"/c", &vnet.Res{Name: "tc", Size: 12, Status: 404, Headers: vnet.H{{"Cache-Control", "no-store"}, {"X-C", "token-c"}, {"Content-Type", "text/x-c"}}})
 	o.Put(prefix+"/d", &vnet.Res{Name: "td", Size: 0, Status: 204, Headers: vnet.H{{"X-D", "token-d"}}})
@@ -110,6 +117,10 @@ func summary(r *vnet.Resp) string {
 	for k, vs := range r.Header {
 		switch k {
 		case "Date", "Content-Length", "X-Verif-Transfer-Encoding", "Connection", "Transfer-Encoding":
+			continue
+		case "Last-Modified":
+			// none of the scripted resources sends one: what appears is the time the proxy received the
+			// response, which differs between the transports once a shape moves the clock
 			continue
 		}
 		hs = append(hs, k+"="+strings.Join(vs, "|"))
@@ -169,7 +180,11 @@ func scenarioTunnel(c *vrun.Ctx) {
 			results = map[string][]string{}
 			env.seq++ // fresh resources and cache keys for every attempt
 			// pipelined: the whole sequence is written into one tunnel before the first answer is read
-			if depth > 1 && pipelineTimeouts < 6 {
+			timed := false // a sequence in which the clock moves between exchanges cannot be written in one go
+			for _, s := range seq {
+				timed = timed || s.advance > 0
+			}
+			if depth > 1 && pipelineTimeouts < 6 && !timed {
 				prefix := "/s" + strconv.Itoa(env.seq) + "q"
 				scriptTunnelOrigin(env.origin, prefix)
 				if t, cr := env.srv.OpenTunnel(originHost+":443", env.tlsConfig(originHost)); t == nil {
@@ -200,6 +215,9 @@ func scenarioTunnel(c *vrun.Ctx) {
 				scriptTunnelOrigin(env.origin, prefix)
 				var tun *vnet.Tunnel
 				for _, s := range seq {
+					if s.advance > 0 {
+						vtime.Advance(s.advance)
+					}
 					var r *vnet.Resp
 					switch mode {
 					case "plain":
